@@ -9,6 +9,7 @@ import (
 	"sort"
 	"strconv"
 	"strings"
+	"sync/atomic"
 	"time"
 
 	"github.com/protobom/protobom/pkg/formats"
@@ -159,7 +160,14 @@ type serResult struct {
 	pan string
 }
 
+// once a serialization has hung, its goroutine keeps a core busy for good: the first hang is the
+// finding, later operations of the run are not started
+var serHung atomic.Bool
+
 func runSer(d *sbom.Document, f formats.Format, indent int, nilRender bool) string {
+	if serHung.Load() {
+		return "skipped-after-hang"
+	}
 	ch := make(chan serResult, 1)
 	go func() {
 		var r serResult
@@ -190,7 +198,8 @@ func runSer(d *sbom.Document, f formats.Format, indent int, nilRender bool) stri
 			return "neither"
 		}
 		return "ok:" + outputDigest(r.out)
-	case <-time.After(30 * time.Second):
+	case <-time.After(20 * time.Second):
+		serHung.Store(true)
 		return "hang"
 	}
 }
@@ -329,6 +338,19 @@ func serGen(g *G, tier string) []M {
 		}
 		// nil render options
 		ops = append(ops, M{"op": "serSeq", "fmt": string(f), "docs": []any{M{"doc": good, "nils": []any{}, "nilRender": true}}})
+		if i%4 == 0 {
+			// a node contained in two others (and one on a containment cycle), serialized six times:
+			// the placement must not depend on anything but the document
+			dia := M{"meta": M{"id": "urn:uuid:1", "version": "1"}, "nl": M{
+				"nodes": []any{M{"id": "r", "type": 0.0, "a": M{}}, M{"id": "pa", "type": 0.0, "a": M{}}, M{"id": "pb", "type": 0.0, "a": M{}},
+					M{"id": "shared", "type": 0.0, "a": M{}}, M{"id": "c1", "type": 0.0, "a": M{}}, M{"id": "c2", "type": 0.0, "a": M{}}},
+				"edges": []any{M{"ty": 5.0, "src": "r", "tos": []any{"pa", "pb"}}, M{"ty": 5.0, "src": "pa", "tos": []any{"shared"}},
+					M{"ty": 5.0, "src": "pb", "tos": []any{"shared", "c1"}}, M{"ty": 5.0, "src": "c1", "tos": []any{"c2"}}, M{"ty": 5.0, "src": "c2", "tos": []any{"c1"}}},
+				"roots": []any{"r"}}}
+			for _, ff := range []formats.Format{formats.CDX14JSON, formats.CDX15JSON, formats.SPDX23JSON} {
+				ops = append(ops, M{"op": "serSeq", "fmt": string(ff), "docs": []any{mk(dia), mk(dia), mk(dia), mk(dia), mk(dia), mk(dia)}})
+			}
+		}
 	}
 	return ops
 }
@@ -351,6 +373,9 @@ func oracleSer(op M, res any, exec func(M) any) []Finding {
 			break
 		}
 		dm, _ := docs[i].(M)
+		if s == "skipped-after-hang" {
+			continue
+		}
 		if strings.HasPrefix(s, "panic") || s == "hang" || s == "neither" {
 			add("serializer %s on document %d of the sequence (nil faults %v): %s", asStr(op["fmt"]), i, dm["nils"], s)
 			continue
@@ -371,7 +396,8 @@ func oracleSer(op M, res any, exec func(M) any) []Finding {
 				break
 			}
 			alone := asList(exec(M{"op": "serSeq", "fmt": op["fmt"], "docs": []any{d}}))
-			if len(alone) == 1 && asStr(alone[0]) != asStr(rl[i]) && !strings.HasPrefix(asStr(rl[i]), "panic") {
+			if len(alone) == 1 && asStr(alone[0]) != asStr(rl[i]) && !strings.HasPrefix(asStr(rl[i]), "panic") &&
+				asStr(alone[0]) != "skipped-after-hang" && asStr(rl[i]) != "skipped-after-hang" && asStr(rl[i]) != "hang" {
 				add("document %d of the sequence gives %s after earlier serializations and %s alone (format %s)", i, asStr(rl[i]), asStr(alone[0]), asStr(op["fmt"]))
 			}
 		}
